@@ -2013,6 +2013,18 @@ const fn term_type_order(t: &OwnedTerm) -> u8 {
 
 impl Eq for OwnedTerm {}
 
+impl OwnedTerm {
+    /// Bytes and the number of used bits in the last byte, for binaries, strings and bit-strings.
+    fn bitstring_parts(&self) -> Option<(&[u8], u8)> {
+        match self {
+            OwnedTerm::Binary(bytes) => Some((bytes.as_slice(), 8)),
+            OwnedTerm::String(s) => Some((s.as_bytes(), 8)),
+            OwnedTerm::BitBinary { bytes, bits } => Some((bytes.as_slice(), *bits)),
+            _ => None,
+        }
+    }
+}
+
 impl Ord for OwnedTerm {
     fn cmp(&self, other: &Self) -> Ordering {
         if discriminant(self) == discriminant(other) {
@@ -2109,47 +2121,6 @@ impl Ord for OwnedTerm {
                     Ordering::Equal
                 }),
                 (OwnedTerm::Nil, OwnedTerm::Nil) => Ordering::Equal,
-                (OwnedTerm::List(a), OwnedTerm::List(b)) => {
-                    for (x, y) in a.iter().zip(b.iter()) {
-                        match x.cmp(y) {
-                            Ordering::Equal => continue,
-                            other => return other,
-                        }
-                    }
-                    a.len().cmp(&b.len())
-                }
-                (OwnedTerm::List(a), OwnedTerm::Nil) => {
-                    if a.is_empty() {
-                        Ordering::Equal
-                    } else {
-                        Ordering::Greater
-                    }
-                }
-                (OwnedTerm::Nil, OwnedTerm::List(b)) => {
-                    if b.is_empty() {
-                        Ordering::Equal
-                    } else {
-                        Ordering::Less
-                    }
-                }
-                (
-                    OwnedTerm::ImproperList {
-                        elements: a,
-                        tail: ta,
-                    },
-                    OwnedTerm::ImproperList {
-                        elements: b,
-                        tail: tb,
-                    },
-                ) => {
-                    for (x, y) in a.iter().zip(b.iter()) {
-                        match x.cmp(y) {
-                            Ordering::Equal => continue,
-                            other => return other,
-                        }
-                    }
-                    a.len().cmp(&b.len()).then_with(|| ta.cmp(tb))
-                }
                 (OwnedTerm::Binary(a), OwnedTerm::Binary(b)) => a.cmp(b),
                 (OwnedTerm::String(a), OwnedTerm::String(b)) => a.cmp(b),
                 (OwnedTerm::Binary(a), OwnedTerm::String(b)) => a.as_slice().cmp(b.as_bytes()),
@@ -2164,7 +2135,13 @@ impl Ord for OwnedTerm {
                         bits: bbits,
                     },
                 ) => a.cmp(b).then_with(|| abits.cmp(bbits)),
-                _ => Ordering::Equal,
+                _ => match (self.bitstring_parts(), other.bitstring_parts()) {
+                    // For bit-strings whose unused trailing bits are zero this is the bit-wise order.
+                    (Some((a, abits)), Some((b, bbits))) => {
+                        a.cmp(b).then_with(|| abits.cmp(&bbits))
+                    }
+                    _ => compare_list_terms(self, other),
+                },
             },
             other => other,
         }
@@ -2676,6 +2653,85 @@ pub(crate) fn compare_bigint_float(big: &BigInt, f: f64) -> Ordering {
 
 pub(crate) fn compare_float_bigint(f: f64, big: &BigInt) -> Ordering {
     compare_bigint_float(big, f).reverse()
+}
+
+/// Walks the cons cells of a list term. A tail that is itself a list is followed, so every
+/// representation of the same Erlang list yields the same elements and the same final tail.
+struct ListCells<'t> {
+    elements: &'t [OwnedTerm],
+    /// `None` stands for nil
+    tail: Option<&'t OwnedTerm>,
+}
+
+impl<'t> ListCells<'t> {
+    fn new(term: &'t OwnedTerm) -> Self {
+        ListCells {
+            elements: &[],
+            tail: Some(term),
+        }
+    }
+
+    /// The next element, or `None` once only the final (non-list) tail is left in `self.tail`.
+    fn next(&mut self) -> Option<&'t OwnedTerm> {
+        loop {
+            if let Some((first, rest)) = self.elements.split_first() {
+                self.elements = rest;
+                return Some(first);
+            }
+            match self.tail {
+                Some(OwnedTerm::List(elements)) => {
+                    self.elements = elements;
+                    self.tail = None;
+                }
+                Some(OwnedTerm::ImproperList { elements, tail }) => {
+                    self.elements = elements;
+                    self.tail = Some(tail);
+                }
+                Some(OwnedTerm::Nil) => {
+                    self.tail = None;
+                    return None;
+                }
+                _ => return None,
+            }
+        }
+    }
+}
+
+const LIST_TYPE_ORDER: u8 = 8;
+
+/// Compares nil, proper and improper lists as chains of cons cells: element by element,
+/// and when one side runs out its tail is compared with what remains of the other.
+fn compare_list_terms(a: &OwnedTerm, b: &OwnedTerm) -> Ordering {
+    let (mut cells_a, mut cells_b) = (ListCells::new(a), ListCells::new(b));
+    loop {
+        match (cells_a.next(), cells_b.next()) {
+            (Some(x), Some(y)) => match x.cmp(y) {
+                Ordering::Equal => continue,
+                other => return other,
+            },
+            (None, None) => {
+                return match (cells_a.tail, cells_b.tail) {
+                    (None, None) => Ordering::Equal,
+                    (None, Some(tail)) => LIST_TYPE_ORDER.cmp(&term_type_order(tail)),
+                    (Some(tail), None) => term_type_order(tail).cmp(&LIST_TYPE_ORDER),
+                    (Some(x), Some(y)) => x.cmp(y),
+                };
+            }
+            // nil sorts before a non-empty list; any other tail by its type
+            (None, Some(_)) => {
+                return match cells_a.tail {
+                    None => Ordering::Less,
+                    Some(tail) => term_type_order(tail).cmp(&LIST_TYPE_ORDER),
+                };
+            }
+            (Some(_), None) => {
+                return match cells_b.tail {
+                    None => Ordering::Greater,
+                    Some(tail) => LIST_TYPE_ORDER.cmp(&term_type_order(tail)),
+                };
+            }
+        }
+    }
 }
 
 fn compare_term_lists(a: &[OwnedTerm], b: &[OwnedTerm]) -> Ordering {
